@@ -26,6 +26,7 @@ theorem new_eq (p : Nat) :
       if p = 0 then .err .InvalidParameter
       else if p * 8 ≤ isizeMax then .ok (fresh p) else .panic := by
   unfold new
+  try simp only [gen_helper]
   cases p with
   | zero => rfl
   | succ n =>
